@@ -335,6 +335,32 @@ def r5(ctx, R):
             idx = "both"
         return idx
 
+    # a coordinate re-bound after it was read from the range: only a clamp to the length of
+    # the line the coordinate belongs to leaves the addressed position unchanged
+    own_line = {sc: sl, ec: el}
+    for st in ctx.m.walk_own(f.node):
+        tgts = []
+        if isinstance(st, ast.Assign):
+            tgts = [t.id for t in st.targets if isinstance(t, ast.Name)]
+        elif isinstance(st, ast.AugAssign) and isinstance(st.target, ast.Name):
+            tgts = [st.target.id]
+        for c in tgts:
+            if c not in own_line or (isinstance(st, ast.Assign) and isinstance(st.value, ast.Subscript) and coord.get(c) and "character" in unparse(st.value)):
+                continue
+            facts = F.at(st) or set()
+            same = ("eq", sl, el) in facts or ("eq", el, sl) in facts
+            lens = [x for x in ast.walk(st.value) if isinstance(x, ast.Call) and isinstance(x.func, ast.Name) and x.func.id == "len" and x.args and isinstance(x.args[0], ast.Subscript) and "contents_split" in unparse(x.args[0].value)]
+            is_min = isinstance(st, ast.Assign) and isinstance(st.value, ast.Call) and isinstance(st.value.func, ast.Name) and st.value.func.id == "min" and any(isinstance(a, ast.Name) and a.id == c for a in st.value.args) and len(st.value.args) == 2
+            if is_min and len(lens) == 1:
+                k = unparse(lens[0].args[0].slice)
+                if k == own_line[c] or same and k in (sl, el):
+                    R.ok("C02.R5", f.short, key(f, st) + " :: clamp", loc(f, st), f"{c} clamped to the length of its own line")
+                elif k in (sl, el):
+                    R.violation("C02.R5", f.short, key(f, st) + " :: clamp", loc(f, st), f"{c} addresses line `{own_line[c]}` but is clamped to the length of line `{k}`: a multi-line range whose {coord[c][0]} character exceeds the length of the other line keeps or drops the wrong text")
+                else:
+                    R.undecided("C02.R5", f.short, key(f, st) + " :: clamp", loc(f, st), f"{c} clamped against line `{k}`")
+            else:
+                R.undecided("C02.R5", f.short, key(f, st) + " :: coordinate re-bound", loc(f, st), f"{c} is re-bound after it was read from the range")
     n = 0
     for s_ in ast.walk(f.node):
         if not (isinstance(s_, ast.Subscript) and isinstance(s_.slice, ast.Slice)):
